@@ -8,7 +8,8 @@ RULE = ("matrix over valid SPEC-generated Valve servers: all 9 toggle pairs x se
         "challenge-then-silent, compressed split that does not decompress (a failure of a kind other than the packet kinds)} for players and for rules x app-id relation (main / dedicated / other id / no expectation; "
         "from the base case's engine and server id) x check on/off. The oracle derives the expected response from the "
         "fault-free one: skipped or failed-Try sections absent, rest intact; failed Enforce = that failure; BadGame exactly "
-        "on a foreign id with the check on; request kinds seen on the wire must match. Unreal 2: 9 toggle pairs x {valid, silent, "
+        "on a foreign id with the check on; request kinds seen on the wire must match. The same decision through the generic "
+        "definition-driven query for games whose definition has the check on and off x extra settings that carry a check, other fields only, or nothing. Unreal 2: 9 toggle pairs x {valid, silent, "
         "malformed, last record cut short after a well-formed prefix} for rules and for players. Non-trivial = a delivery received.")
 ASSUMPTIONS = ["timeouts are scripted deliveries (silence)"]
 TRUSTED = ["hand-written Lean model of maybe_gather!/get_response, checked against the code on every run"]
@@ -94,9 +95,46 @@ def run(rep, tier, seed, replay=None):
         cases.append(v.line)
         meta[v.id] = (v, "foreign-on", None, None, None, None, True)
 
+    # ---- the app-id decision through the definition-driven generic query (games::query): the check that applies is the
+    # caller's when the extra settings carry one — whatever else they carry or leave out —, the protocol's default (on) when
+    # they carry none, the game definition's when no extra settings are given;
+    # a foreign id fails the query with BadGame exactly when that check is on
+    gmeta = {}
+    GAMES = [("teamfortress2", 27015, "S:440", True), ("aapg", 27020, "S:203290", True), ("starbound", 21025, "S:211820", False),
+             ("armareforger", 17777, "S:1874880", False)]
+    import json as _json, os as _os
+    defs = {d["id"]: d for d in _json.load(open(_os.path.join(vlib.WORK, "games.json")))["defs"]}
+    EXTRAS = [("-", None), ("E-:-:-:-:F", False), ("E-:-:-:-:T", True), ("E-:-:t:-:F", False), ("E-:-:-:e:T", True), ("E-:-:t:t:-", None),
+              ("E676d:-:-:-:F", False), ("E676d:47:-:-:T", True), ("E676d:-:-:-:-", None)]
+    for game, _, engine, _ in GAMES:
+        d = defs.get(game)
+        if d is None or d["engine"] != engine:
+            continue
+        def_check = d["gather"].endswith("T")
+        raws = vlib.model_gen("valvefor", seed + 11, 120 if tier == "quick" else 1200, extra=[engine, d["gather"][:2] + "T"])
+        gv = [netprops.Valid(raw, "valve") for raw in raws]
+        gv = [v for v in gv if not v.notwf and (v.want.startswith("OK") or v.want == "ERR BadGame")]
+        foreign_g = [v for v in gv if v.want == "ERR BadGame"][: (3 if tier == "quick" else 30)]
+        own_g = [v for v in gv if v.want.startswith("OK")][: (2 if tier == "quick" else 20)]
+        for v in foreign_g + own_g:
+            c = v.case()
+            for j, (extra, chk) in enumerate(EXTRAS):
+                cid = f"{game}{v.id}x{j}"
+                port = "-" if j % 2 else str(d["port"])
+                cases.append(" ".join([cid, "dispatch", game, port, "-", extra, c.fmt_script()] + c.opts))
+                # (extra settings REPLACE the definition's: given without a check they mean the protocol's default, on)
+                gmeta[cid] = (game, v.want == "ERR BadGame", chk if chk is not None else (def_check if extra == "-" else True), extra)
+
     def oracle(case, impl, model, panic):
         out = netprops.crash_oracle(case, impl, model, panic)
         cid = case.split(" ", 1)[0]
+        if cid in gmeta and not out:
+            game, foreign_id, check_on, extra = gmeta[cid]
+            got = vlib.result_of(impl)
+            rep.count(f"generic-appid:{'foreign' if foreign_id else 'own'}:{'on' if check_on else 'off'}")
+            if (got == "ERR BadGame") != (foreign_id and check_on):
+                out.append(("appid-check:generic", f"{game}, extra settings {extra}: {'foreign' if foreign_id else 'expected'} app id, the check that applies is {'on' if check_on else 'off'}; got {got[:100]}"))
+            return out
         if cid not in meta or out:
             return out
         b, rel, tp, tr, op, orr, check = meta[cid]
